@@ -1,7 +1,6 @@
 package main
 
 import (
-	"bytes"
 	"fmt"
 
 	"diagonal.works/b6"
@@ -19,11 +18,6 @@ func refLists(items []compact.Reference, maxLen int) []compact.References {
 	return out
 }
 
-func normPointReferences(p *compact.PointReferences) {
-	sortRefs(p.Paths)
-	sortRefs(p.Relations)
-}
-
 func kindsComposite(thorough bool) []kind {
 	var ks []kind
 	tags := tagsMenu()
@@ -37,20 +31,7 @@ func kindsComposite(thorough bool) []kind {
 		d := digits(i, len(nssMenu), len(valueMenu), len(tnMenu), len(tags))
 		nss := nssMenu[d[0]]
 		v := compact.CommonPoint{Tags: clone(tags[d[3]]), Path: ref(tnMenu[d[2]], valueMenu[d[1]])}
-		codec[compact.CommonPoint]{
-			kind: "CommonPoint", params: fmt.Sprintf("nss=%v", nss),
-			marshal:   func(v *compact.CommonPoint, b []byte) int { return v.Marshal(&nss, b) },
-			unmarshal: func(v *compact.CommonPoint, b []byte) int { return v.Unmarshal(&nss, b) },
-			dirty:     func() compact.CommonPoint { return compact.CommonPoint{Tags: dirtyTags(), Path: ref(tnRelMax, 5)} },
-			extra: func(c *ctx, v *compact.CommonPoint, enc []byte) {
-				var point, out [2048]byte
-				n := v.Tags.Marshal(tnInvalid, point[:])
-				m := compact.CombinePointAndPath(point[:n], &nss, v.Path, out[:])
-				if !bytes.Equal(out[:m], enc) {
-					c.violate("CombinePointAndPath:differs-from-CommonPoint.Marshal", "point %s nss=%v: CombinePointAndPath wrote [%s], CommonPoint.Marshal [%s]", show(*v), nss, hexHead(out[:m]), hexHead(enc))
-				}
-			},
-		}.check(c, v)
+		commonPointCodec(nss).check(c, v)
 	}})
 
 	// PointReferences
@@ -59,15 +40,7 @@ func kindsComposite(thorough bool) []kind {
 		d := digits(i, len(nssMenu), len(prLists), len(prLists))
 		nss := nssMenu[d[0]]
 		v := compact.PointReferences{Paths: clone(prLists[d[1]]), Relations: clone(prLists[d[2]])}
-		codec[compact.PointReferences]{
-			kind: "PointReferences", params: fmt.Sprintf("nss=%v", nss),
-			marshal:   func(v *compact.PointReferences, b []byte) int { return v.Marshal(&nss, b) },
-			unmarshal: func(v *compact.PointReferences, b []byte) int { return v.Unmarshal(&nss, b) },
-			norm:      normPointReferences,
-			dirty: func() compact.PointReferences {
-				return compact.PointReferences{Paths: compact.References{ref(tnRel4, 1), ref(tnRel4, 2), ref(tnRel4, 3), ref(tnRel4, 4)}, Relations: compact.References{ref(tnPath2, 1), ref(tnPath2, 2), ref(tnPath2, 3), ref(tnPath2, 4)}}
-			},
-		}.check(c, v)
+		pointReferencesCodec(nss).check(c, v)
 	}})
 
 	// FullPoint (+ CombinePointAndReferences)
@@ -76,23 +49,7 @@ func kindsComposite(thorough bool) []kind {
 		d := digits(i, 2, len(relSel), len(prLists), len(tags))
 		nss := nssMenu[d[0]]
 		v := compact.FullPoint{Tags: clone(tags[d[3]]), PointReferences: compact.PointReferences{Paths: clone(prLists[d[2]]), Relations: clone(prLists[relSel[d[1]]%len(prLists)])}}
-		codec[compact.FullPoint]{
-			kind: "FullPoint", params: fmt.Sprintf("nss=%v", nss),
-			marshal:   func(v *compact.FullPoint, b []byte) int { return v.Marshal(&nss, b) },
-			unmarshal: func(v *compact.FullPoint, b []byte) int { return v.Unmarshal(&nss, b) },
-			norm:      func(v *compact.FullPoint) { normPointReferences(&v.PointReferences) },
-			dirty: func() compact.FullPoint {
-				return compact.FullPoint{Tags: dirtyTags(), PointReferences: compact.PointReferences{Paths: compact.References{ref(tnRel4, 1), ref(tnRel4, 2), ref(tnRel4, 3)}, Relations: compact.References{ref(tnPath2, 1), ref(tnPath2, 2), ref(tnPath2, 3)}}}
-			},
-			extra: func(c *ctx, v *compact.FullPoint, enc []byte) {
-				var point, out [2048]byte
-				n := v.Tags.Marshal(tnInvalid, point[:])
-				m := compact.CombinePointAndReferences(point[:n], clone(v.PointReferences), &nss, out[:])
-				if !bytes.Equal(out[:m], enc) {
-					c.violate("CombinePointAndReferences:differs-from-FullPoint.Marshal", "point %s nss=%v: CombinePointAndReferences wrote [%s], FullPoint.Marshal [%s]", show(*v), nss, hexHead(out[:m]), hexHead(enc))
-				}
-			},
-		}.check(c, v)
+		fullPointCodec(nss).check(c, v)
 	}})
 
 	// Path
@@ -102,15 +59,7 @@ func kindsComposite(thorough bool) []kind {
 		d := digits(i, len(nssMenu), len(relLists), len(areaLists), len(tags))
 		nss := nssMenu[d[0]]
 		v := compact.Path{Tags: clone(tags[d[3]]), Areas: clone(areaLists[d[2]]), Relations: clone(relLists[d[1]])}
-		codec[compact.Path]{
-			kind: "Path", params: fmt.Sprintf("nss=%v", nss),
-			marshal:   func(v *compact.Path, b []byte) int { return v.Marshal(&nss, b) },
-			unmarshal: func(v *compact.Path, b []byte) int { return v.Unmarshal(&nss, b) },
-			norm:      func(v *compact.Path) { sortRefs(v.Areas) },
-			dirty: func() compact.Path {
-				return compact.Path{Tags: dirtyTags(), Areas: compact.References{ref(tnRel4, 1), ref(tnRel4, 2), ref(tnRel4, 3)}, Relations: compact.References{ref(tnPath2, 1), ref(tnPath2, 2), ref(tnPath2, 3)}}
-			},
-		}.check(c, v)
+		pathCodec(nss).check(c, v)
 	}})
 
 	// Polygon geometries
@@ -224,24 +173,7 @@ func kindsComposite(thorough bool) []kind {
 		d := digits(i, len(nssMenu), len(relLists), nGeoms, len(areaTags))
 		nss := nssMenu[d[0]]
 		v := compact.Area{Tags: clone(areaTags[d[3]]), Polygons: clone(geoms()[d[2]]), Relations: clone(relLists[d[1]])}
-		codec[compact.Area]{
-			kind: "Area", params: fmt.Sprintf("nss=%v", nss),
-			marshal:   func(v *compact.Area, b []byte) int { return v.Marshal(&nss, b) },
-			unmarshal: func(v *compact.Area, b []byte) int { return v.Unmarshal(&nss, b) },
-			dirty: func() compact.Area {
-				return compact.Area{Tags: dirtyTags(), Polygons: &compact.AreaGeometryReferences{Polygons: []int{3}, Paths: compact.References{ref(tnRel4, 1)}}, Relations: compact.References{ref(tnPath2, 1), ref(tnPath2, 2), ref(tnPath2, 3)}}
-			},
-			extra: func(c *ctx, v *compact.Area, enc []byte) {
-				if l := compact.MarshalledArea(enc).Len(); l != v.Polygons.Len() {
-					c.violate("MarshalledArea.Len:wrong", "area %s: MarshalledArea.Len()=%d, encoded geometry Len()=%d", show(*v), l, v.Polygons.Len())
-				}
-				paths := compact.CombineTypeAndNamespace(b6.FeatureTypePath, nss.ForType(b6.FeatureTypePath))
-				g := compact.MarshalledArea(enc).UnmarshalPolygons(paths)
-				if df := diff(v.Polygons, g); df != "" {
-					c.violate("MarshalledArea.UnmarshalPolygons:decoded-differs", "area %s nss=%v: UnmarshalPolygons gave %s; first difference at %s", show(*v), nss, show(g), df)
-				}
-			},
-		}.check(c, v)
+		areaCodec(nss).check(c, v)
 	}})
 
 	// Relation
@@ -253,24 +185,7 @@ func kindsComposite(thorough bool) []kind {
 		nss := nssMenu[d[0]]
 		primary := types[d[1]]
 		v := compact.Relation{Tags: clone(areaTags[d[4]]), Members: clone(memberLists[d[3]]), Relations: clone(relLists[d[2]])}
-		codec[compact.Relation]{
-			kind: "Relation", params: fmt.Sprintf("primary=%s nss=%v", primary, nss),
-			marshal:   func(v *compact.Relation, b []byte) int { return v.Marshal(primary, &nss, b) },
-			unmarshal: func(v *compact.Relation, b []byte) int { return v.Unmarshal(primary, &nss, b) },
-			dirty: func() compact.Relation {
-				return compact.Relation{Tags: dirtyTags(), Members: compact.Members{mm[4], mm[4], mm[4], mm[4], mm[4], mm[4]}, Relations: compact.References{ref(tnPath2, 1), ref(tnPath2, 2), ref(tnPath2, 3)}}
-			},
-			extra: func(c *ctx, v *compact.Relation, enc []byte) {
-				if l := compact.MarshalledRelation(enc).Len(); l != len(v.Members) {
-					c.violate("MarshalledRelation.Len:wrong", "relation %s: MarshalledRelation.Len()=%d want %d", show(*v), l, len(v.Members))
-				}
-				var ms compact.Members
-				compact.MarshalledRelation(enc).UnmarshalMembers(primary, &nss, &ms)
-				if df := diff(v.Members, ms); df != "" {
-					c.violate("MarshalledRelation.UnmarshalMembers:decoded-differs", "relation %s primary=%s nss=%v: UnmarshalMembers gave %s; first difference at %s", show(*v), primary, nss, show(ms), df)
-				}
-			},
-		}.check(c, v)
+		relationCodec(primary, nss).check(c, v)
 	}})
 	return ks
 }
